@@ -87,6 +87,10 @@ class Step:
 
     @property
     def kind(self):
+        if self.ev.startswith("A "):
+            return "ack"
+        if self.ev.startswith("P "):
+            return "pure"
         return self.toks[0] if self.toks else "?"
 
 
@@ -110,7 +114,7 @@ class Case:
         return None
 
     def input_lines(self, upto=None):
-        lines = [self.header, self.cfg_line]
+        lines = [self.header] + ([self.cfg_line] if self.cfg_line else [])
         steps = self.steps if upto is None else self.steps[: upto + 1]
         lines += [s.ev for s in steps]
         return [l for l in lines if l]
@@ -136,7 +140,7 @@ def load_cases(in_path, impl_path, model_path):
             cur.cfg_line = il
             cur.cfg = parse_cfg(il)
             cur.init_impl, cur.init_model = ml, dl
-        elif il.startswith("E "):
+        elif il.startswith("E ") or il.startswith("A ") or il.startswith("P "):
             cur.steps.append(Step(il, ml, dl, len(cur.steps)))
         elif il.startswith("#"):
             cur.notes.append(il)
